@@ -13,12 +13,19 @@ Parts (all deterministic; VERIF_SEED only moves the strides/offsets of the quick
   length   generic commands of 8, 9, 12, 15, 17, 20, 23, 25, 32 bits (and 16, 24): refused unless the
            gateway has an encoding for that length, in which case the bytes must be the reference's
   seq      700 consecutive sends per driver with sequence numbers, from several starting points
+  seqmix   histories that interleave send()/construct() with the driver's other packet-producing public operations
+           (legacy hasseb sync + async: enableSniffing, disableSniffing, readFirmwareVersion; legacy Tridonic base /
+           sync / async: construct and send; Tridonic HID: power_supply): every ordered triple of operations at five
+           starting points incl. the wrap, and 700-operation mixtures; every two consecutive packets that carry a
+           sequence number carry different, in-range ones
   decode   every status/type code of each gateway's report format x payload values -> what the driver
            reports (backward frame value / no answer / framing error / forward frame) == reference decoder;
            LUBA / SCI: every code once more behind a packet with a damaged checksum
   unipi-bus  the UniPi driver on every channel of the unit (constructor option bus=0..3) against a register-level
            model of the gateway: register numbers written (send pair) and read (receive triple, framing-error
-           counter) == ref_wire.UNIPI_REGS, and the answer that comes back through them
+           counter) == ref_wire.UNIPI_REGS, and the answer that comes back through them; the 16-bit receive and
+           framing-error counters start at 0, 1, 2, 0x7FFF, 0x8000, 65533..65535 (and a seed value) and move by 1, 2,
+           0x8000, -1 or exactly to 0 (wrap / channel restart) between the reading before the command and the answer
 """
 import asyncio
 import logging
@@ -29,6 +36,7 @@ from harness.runner import Result, library_frame
 ID = "C18"
 LEVEL = "exploration"
 RULE = ("one case = (driver, frame bits, frame value, device type) for encode/length, (driver, start) for seq, "
+        "(driver, start, word over the driver's packet-producing operations) for seqmix, "
         "(driver, type/status code, payload[, damaged packet in front]) for decode, (UniPi channel, frame, scripted "
         "answer) for unipi-bus; distinct by construction (enumeration); non-trivial = the "
         "driver accepted the command and its bytes were compared, or a gateway report was decoded and compared, or a "
@@ -53,6 +61,16 @@ ASSUMPTIONS = list(RW.ASSUMPTIONS) + [
     "channels' receive counters (with other data) at the same moment; registers in the DALI block that belong to "
     "another channel must not be read or written, registers outside it are not judged; a Compare whose only evidence "
     "is the channel's framing-error counter may be reported as YES (0xFF) or as a framing error",
+    "UniPi counters: the receive counter and the framing-error counter are single 16-bit Modbus registers, so they "
+    "wrap from 65535 to 0, and a channel that is restarted counts from a low value again; a receive triple whose counter "
+    "differs IN ANY WAY from the reading taken before the command denotes a new frame (the driver's own reading of the "
+    "register map)",
+    "sequence numbers: every packet the legacy hasseb driver produces (DALI frame 0x07, configuration 0x05, firmware "
+    "query 0x02) carries its sequence number in byte 2; Tridonic: byte 1 of host->device SEND packets (0x12) - power-supply "
+    "packets (0x40) carry none; a packet returned by construct() counts as produced at that moment (the caller writes "
+    "it); only range and 'no immediate repetition' are judged, as the statement says, not the step; the legacy Tridonic "
+    "sync/async drivers are created without their constructors (which only look for the USB device) and given a recording "
+    "backend",
     "the conversation needed to complete a send (echo reports, transmit confirmations, status frames) is played as "
     "the driver expects it; C18 judges formats, not the conversation (C15-C17)",
 ]
@@ -502,13 +520,15 @@ class UnipiGateway:
     traffic meanwhile (their counters move too), so that reading another channel's registers gives a wrong result
     instead of an accidentally right one."""
 
-    def __init__(self, answers, fe_on):
+    def __init__(self, answers, fe_on, counters=None, step=1, fe_start=7):
         self.answers = answers          # line -> backward frame value | None
         self.fe_on = fe_on              # set of framing-error registers that count up after a transmission
+        self.step = step                # by how much a line's receive counter moves when the answer arrives (mod 2^16)
         self.regs = {}
         for bus, r in RW.UNIPI_REGS.items():
-            self.regs[r["recv"][0]] = 100 + bus
-            self.regs[r["fe"]] = 7
+            # the counters are 16-bit Modbus registers that have been counting since the unit was switched on
+            self.regs[r["recv"][0]] = (counters or {}).get(bus, 100 + bus) & 0xFFFF
+            self.regs[r["fe"]] = fe_start & 0xFFFF
         self.writes = []                # (start register, values)
         self.reads = []                 # (start register, count)
         self.transmitted = []           # (line, bits, value, twice)
@@ -547,7 +567,7 @@ class UnipiGateway:
             if bus in sent:
                 v = self.answers.get(bus)
                 if v is not None:
-                    self.regs[c] = (self.regs[c] + 1) & 0xFFFF
+                    self.regs[c] = (self.regs[c] + self.step) & 0xFFFF
                     self.regs[ty], self.regs[da] = 0x100, v
             else:       # unrelated traffic on the other lines: somebody's forward frame and its answer
                 self.regs[c] = (self.regs[c] + 2) & 0xFFFF
@@ -811,6 +831,165 @@ def case_seq(case):
     return vs
 
 
+# ---------------------------------------- sequence numbers across all packet kinds ----
+class _FakeUsbBackend:
+    """Stand-in for dali.driver.base.USBBackend / USBListener (no pyusb, no device): records writes, answers
+    every read with the gateway's 'no answer' report for the packet written last."""
+
+    def __init__(self):
+        self.written = []
+
+    def write(self, data):
+        self.written.append(bytes(data))
+        return len(data)
+
+    def read(self, timeout=None):
+        seq = self.written[-1][1] if self.written else 0
+        return RW.tridonic_report(0x12, 0x71, 0, seq=seq)
+
+    def close(self):
+        pass
+
+
+SEQMIX_OPS = {
+    # op letter -> meaning; every op hands one or more packets to the gateway (or returns one for the caller to write)
+    "legacy-hasseb": "SQTCEDF", "legacy-hasseb-async": "SQTCEDF",
+    "legacy-tridonic": "C", "legacy-tridonic-sync": "SQTC", "legacy-tridonic-async": "SQTC",
+    "tridonic-hid": "SQTPp",
+}
+
+
+def _seqmix_driver(driver, start):
+    """-> (do(op) -> list of packets produced by that op, index of the sequence number, (lo, hi), judged(pkt))"""
+    env = _env()
+    gg = env["gg"]
+    cmds = {"S": gg.DAPC(1, 10), "Q": gg.QueryStatus(3), "T": gg.Reset(4), "C": gg.Off(2)}
+    if driver in ("legacy-hasseb", "legacy-hasseb-async"):
+        H2 = env["H2"]
+        d = (H2.SyncHassebDALIUSBDriver if driver == "legacy-hasseb" else H2.AsyncHassebDALIUSBDriver)()
+        if driver.endswith("async"):
+            d.setEventHandler(d.receive)
+        d.sn = (start - 1) % 256
+        dev = d.device
+
+        def do(op):
+            dev.written = []
+            if op == "C":
+                return [bytes(d.construct(cmds[op]))]
+            if op in "SQT":
+                dev.to_read = [bytes([0xAA, 0x07, 0, 1, 0, 0, 0, 0, 0, 0])] * 2 if op == "Q" else []
+                d.send(cmds[op])
+            elif op == "E":
+                d.enableSniffing()
+            elif op == "D":
+                d.disableSniffing()
+            elif op == "F":
+                dev.to_read = [bytes([0xAA, 0x00, 0, 0, 0, 0, 0, 0, 0, 0]), bytes([0xAA, 0x02, 0, 1, 7, 0, 0, 0, 0, 0])]
+                d.readFirmwareVersion()
+            else:
+                raise KeyError(op)
+            dev.to_read = []
+            return list(dev.written)
+        return do, 2, RW.HASSEB_SEQ_RANGE, lambda pkt: len(pkt) >= 3 and pkt[0] == 0xAA
+    if driver.startswith("legacy-tridonic"):
+        T = env["T"]
+        cls = {"legacy-tridonic": T.TridonicDALIUSBDriver, "legacy-tridonic-sync": T.SyncTridonicDALIUSBDriver,
+               "legacy-tridonic-async": T.AsyncTridonicDALIUSBDriver}[driver]
+        d = cls.__new__(cls)            # the constructors of the sync/async drivers only look for the USB device
+        be = d.backend = _FakeUsbBackend()
+        if start != 1:
+            d._next_sn = start
+
+        def do(op):
+            be.written = []
+            if op == "C":
+                return [bytes(d.construct(cmds[op]))]
+            if driver.endswith("async"):
+                d.send(cmds[op], callback=None)
+            else:
+                d.send(cmds[op])
+            return list(be.written)
+        return do, 1, RW.TRIDONIC_SEQ_RANGE, lambda pkt: len(pkt) >= 2 and pkt[0] == RW.TRIDONIC_SEND
+    if driver == "tridonic-hid":
+        r = _RIGS["tridonic-hid"] = TridonicHid(start=start)
+
+        def do(op):
+            if op in "Pp":
+                r.writes = []
+                r.script = None
+                out = _run(r.d.power_supply(op == "P"))
+                if out[0] != "ok":
+                    raise _SeqmixFailed("power_supply(%s): %r" % (op == "P", out))
+                return list(r.writes)
+            out, writes = r.send(cmds[op])
+            if out[0] != "ok":
+                raise _SeqmixFailed("send %s: %r %r" % (op, out, _hx(writes)))
+            return writes
+        return do, 1, RW.TRIDONIC_SEQ_RANGE, lambda pkt: len(pkt) >= 2 and pkt[0] == RW.TRIDONIC_SEND
+    raise KeyError(driver)
+
+
+class _SeqmixFailed(Exception):
+    pass
+
+
+def case_seqmix(case):
+    """A history of the driver's packet-producing public operations: every packet that carries a sequence number
+    must carry one in the protocol's range, different from the one in the packet produced immediately before."""
+    driver, start, ops = case["driver"], case["start"], case["ops"]
+    do, idx, (lo, hi), judged = _seqmix_driver(driver, start)
+    pk = []                     # (op number, op, packet)
+    for i, op in enumerate(ops):
+        try:
+            got = _call(do, op)
+        except _SeqmixFailed as e:
+            return [("C18:%s:send-failed-in-sequence" % driver, "op %d (%s) of %r: %s" % (i, op, ops[:40], e))]
+        if got[0] != "ok":
+            return [("C18:%s:raised-in-sequence:%s" % (driver, type(got[1]).__name__),
+                     "op %d (%s) of %r from start %d raised %r" % (i, op, ops[:40], start, got[1]))]
+        pk.extend((i, op, p) for p in got[1] if judged(p))
+    vs = []
+    names = {"S": "send(DAPC)", "Q": "send(QueryStatus)", "T": "send(Reset)", "C": "construct(Off)", "E": "enableSniffing()",
+             "D": "disableSniffing()", "F": "readFirmwareVersion()", "P": "power_supply(True)", "p": "power_supply(False)"}
+    bad = [(i, op, p) for i, op, p in pk if not lo <= p[idx] <= hi]
+    if bad:
+        i, op, p = bad[0]
+        vs.append(("C18:%s:sequence-number-out-of-range" % driver,
+                   "start %d, operations %r: the packet %s of operation %d (%s) carries sequence number %d, range %d..%d"
+                   % (start, ops[:60], p[:10].hex(), i, names[op], p[idx], lo, hi)))
+    for a, b in zip(pk, pk[1:]):
+        if a[2][idx] == b[2][idx]:
+            vs.append(("C18:%s:sequence-number-repeats" % driver,
+                       "start %d, operations %r: the packets of operation %d (%s) and operation %d (%s) both carry "
+                       "sequence number %d: %s, %s" % (start, ops[:60], a[0], names[a[1]], b[0], names[b[1]], b[2][idx],
+                                                       a[2][:10].hex(), b[2][:10].hex())))
+            break
+    return vs
+
+
+def seqmix_cases(seed):
+    out = []
+    for driver, alphabet in sorted(SEQMIX_OPS.items()):
+        n = len(alphabet)
+        if n == 1:
+            continue
+        # every ordered triple of operations, at the start, in the middle and across the wrap of the range
+        words = [a + b + c for a in alphabet for b in alphabet for c in alphabet]
+        for start in (1, 128, 253, 254, 255):
+            # several triples per driver object, separated by nothing: consecutive triples are further pairs
+            for k in range(0, len(words), 24):
+                out.append({"kind": "seqmix", "driver": driver, "start": start, "ops": "".join(words[k:k + 24])})
+        # long mixed histories (700 operations; arithmetic on the seed decides the operations)
+        for j, start in enumerate(sorted({1, 200, 1 + seed % 255})):
+            x = (seed * 2654435761 + j * 40503 + len(driver) * 97 + 12345) & 0xFFFFFFFF
+            ops = []
+            for _ in range(700):
+                x = (x * 1103515245 + 12345) & 0x7FFFFFFF
+                ops.append(alphabet[(x >> 16) % n])
+            out.append({"kind": "seqmix", "driver": driver, "start": start, "ops": "".join(ops)})
+    return out
+
+
 # ------------------------------------------------------------------ receive side ----
 def norm_response(out):
     """What a send() outcome tells the caller."""
@@ -1027,7 +1206,13 @@ def case_unipi_bus(case):
     if made[0] != "ok":
         return [("C18:unipi:bus:constructor-raised", "SyncUnipiDALIDriver(bus=%d) raised %r" % (bus, made[1]))]
     d = made[1]
-    gw = UnipiGateway({bus: answer}, fe_on)
+    counters = None
+    if "counter" in case:
+        counters = {b: (case["counter"] if b == bus else case.get("others", 100) + 3 * b) for b in RW.UNIPI_REGS}
+    step = case.get("step", 1)
+    if step % 65536 == 0:
+        raise ValueError("a counter that does not move announces nothing")
+    gw = UnipiGateway({bus: answer}, fe_on, counters, step, case.get("fe_start", 7))
     d.backend.pymc = gw
     _UNIPI_CLOCK.append(gw)
     try:
@@ -1036,6 +1221,10 @@ def case_unipi_bus(case):
         _UNIPI_CLOCK.remove(gw)
     where = "unipi bus=%d %s %d-bit frame %#x (sendtwice=%s, gear answers %r, framing-error counter moving: %s)" % (
         bus, type(cmd).__name__, bits, value, twice, answer, fe)
+    if counters is not None:
+        c0 = counters[bus]
+        where += " [channel's receive counter %d before the command, %d with the answer; framing-error counter from %d]" % (
+            c0, (c0 + step) & 0xFFFF, case.get("fe_start", 7))
     vs = []
     regs = RW.unipi_encode(bits, value, twice)
     wr = [w for w in gw.writes if w[0] != "coil"]
@@ -1117,7 +1306,7 @@ def case_observe(case):
 def run_case(case):
     kind = case["kind"]
     return {"encode": case_encode, "length": case_length, "seq": case_seq, "decode": case_decode,
-            "observe": case_observe, "unipi-bus": case_unipi_bus}[kind](case)
+            "observe": case_observe, "unipi-bus": case_unipi_bus, "seqmix": case_seqmix}[kind](case)
 
 
 # ------------------------------------------------------------------------ shards ----
@@ -1184,6 +1373,8 @@ def _misc_shard(arg):
         for driver in ("tridonic-hid", "legacy-tridonic", "legacy-hasseb"):
             for s in starts:
                 cases.append({"kind": "seq", "driver": driver, "start": s, "n": 700})
+    elif part == "seqmix":
+        cases = seqmix_cases(seed)
     elif part == "sendlevel":
         # what send() writes (not only construct()) for ATX / legacy hasseb
         for v in (0xFF00, 0xFF20, 0x0320, 0xFF90, 0x01FE, 0xA500, 0xA300):
@@ -1269,6 +1460,25 @@ def _misc_shard(arg):
                     for ans, fe in variants:
                         cases.append({"kind": "unipi-bus", "driver": "unipi", "bus": bus, "bits": bits, "value": v,
                                       "answer": ans, "fe": fe})
+        # the receive / framing-error counters are 16-bit registers: every reading, the wrap 65535 -> 0 and a
+        # counter that starts again (channel restarted) between the reading before the command and the answer
+        starts = [0, 1, 2, 0x7FFF, 0x8000, 65533, 65534, 65535, (seed * 7919 + 13) & 0xFFFF]
+        for bus in sorted(RW.UNIPI_REGS):
+            for bits, v in ((16, 0x03A0), (16, 0xFF90), (24, 0x03FE30), (16, 0xA900)):
+                for ci, c0 in enumerate(starts):
+                    for step in (1, 2, 0x8000, 65535, 65536 - c0 if c0 else 7):
+                        ans = (0x5A, 0x00, 0xFF)[(ci + step) % 3]
+                        cases.append({"kind": "unipi-bus", "driver": "unipi", "bus": bus, "bits": bits, "value": v,
+                                      "answer": ans, "fe": "none", "counter": c0, "step": step,
+                                      "others": starts[(ci + 3 + bus) % len(starts)], "fe_start": starts[(ci + 5) % len(starts)]})
+                    # no answer while the other lines' counters (and the other framing-error counter) wrap
+                    cases.append({"kind": "unipi-bus", "driver": "unipi", "bus": bus, "bits": bits, "value": v,
+                                  "answer": None, "fe": "other", "counter": c0, "step": 1,
+                                  "others": 65534 - 3 * ((bus + 1) % 4), "fe_start": 65535})
+                    if v == 0xA900:     # Compare: the only evidence is this channel's framing-error counter, wrapping
+                        cases.append({"kind": "unipi-bus", "driver": "unipi", "bus": bus, "bits": bits, "value": v,
+                                      "answer": None, "fe": "own", "counter": c0, "step": 1, "others": c0,
+                                      "fe_start": (65535, 65534, 0)[ci % 3]})
     elif part == "observe":
         gg = _env()["gg"]
         for v in [0xFE00 | x for x in range(0, 256, 5)] + [0x0200 | x for x in range(3, 256, 17)] + \
@@ -1317,7 +1527,7 @@ def run(ctx):
     nsh = 48
     shards = [("enc", items[k::nsh]) for k in range(nsh)]
     ctx.pmap(_enc_shard, shards)
-    parts = ["length", "seq", "sendlevel", "decode-tridonic", "decode-legacy-tridonic", "decode-hasseb", "decode-luba",
+    parts = ["length", "seq", "seqmix", "sendlevel", "decode-tridonic", "decode-legacy-tridonic", "decode-hasseb", "decode-luba",
              "decode-sci", "decode-small", "observe", "unipi-bus"]
     ctx.pmap(_misc_shard, [(p, ctx.seed, quick) for p in parts])
     res = ctx.result
